@@ -195,7 +195,7 @@ def main():
         if not c.canary:
             tasks.append((("grid", c.id), w_grid, (prop, c.id, tier, findings, seed)))
     for c in contracts:
-        if not c.bounded_only:
+        if not c.bounded_only and (c.quick or tier == "thorough"):
             tasks.append((("sym", c.id), w_symbolic, (prop, c.id, tier, findings)))
     res = run_tasks(tasks, nproc, timeout_s=(330 if tier == "quick" else 1800))
     from pyvc.report import summarise
